@@ -20,19 +20,19 @@ type a5Tactic func(bc *boundsCtx, e ast.Expr, base ast.Expr, need needLen) (how 
 // needLen: the obligation is len(base) >= Min (Min counted in elements), or,
 // when Idx != nil, 0 <= Idx(+Off) < len(base) (+1 for slice bounds).
 type needLen struct {
-	Min   int64    // constant requirement len(base) >= Min
-	Idx   ast.Expr // variable part of the index, nil when constant
-	Off   int64    // constant offset added to Idx
-	Slice bool     // slice bound: Idx+Off <= len(base) suffices
-	LenRel bool    // index is len(base)-k: requirement is len(base) >= k (k = Min)
+	Min    int64    // constant requirement len(base) >= Min
+	Idx    ast.Expr // variable part of the index, nil when constant
+	Off    int64    // constant offset added to Idx
+	Slice  bool     // slice bound: Idx+Off <= len(base) suffices
+	LenRel bool     // index is len(base)-k: requirement is len(base) >= k (k = Min)
 }
 
 type boundsCtx struct {
-	f    *core.Func
-	g    *cfgx.G
-	info *types.Info
-	r    *core.Report
-	rule string
+	f     *core.Func
+	g     *cfgx.G
+	info  *types.Info
+	r     *core.Report
+	rule  string
 	extra []a5Tactic
 	// readAt is where the element is read: the expression itself, or the statement
 	// that took a snapshot of it (cur := acc[i])
@@ -673,50 +673,67 @@ func (bc *boundsCtx) baseShrinksInFunc(base ast.Expr) bool {
 // accessors, or methods of the module that are such a chain themselves) on the same variable, which is assigned nowhere
 // in the function.
 func (bc *boundsCtx) sameCount(a, b ast.Expr) bool {
-	a, b = ast.Unparen(a), ast.Unparen(b)
-	if core.ExprStr(a) != core.ExprStr(b) {
-		return false
-	}
-	var pure func(e ast.Expr) bool
-	pure = func(e ast.Expr) bool {
-		switch x := ast.Unparen(e).(type) {
-		case *ast.Ident:
-			v := core.VarOf(bc.info, x)
-			if v == nil {
-				return false
-			}
-			// parameters and receivers have no definition in the body; locals exactly one
-			n := len(core.DefsOf(bc.info, bc.f.Root().Body, v))
-			return n == 0 || (n == 1 && !isParamOf(bc.f.Root(), v))
-		case *ast.SelectorExpr:
-			return pure(x.X)
-		case *ast.CallExpr:
-			if len(x.Args) != 0 {
-				return false
-			}
-			sel, ok := ast.Unparen(x.Fun).(*ast.SelectorExpr)
-			if !ok {
-				return false
-			}
-			fn := core.CalleeFunc(bc.info, x)
-			if fn == nil || fn.Pkg() == nil {
-				return false
-			}
-			if fn.Pkg().Path() != "go/types" && !bc.getterOfOwnPackage(fn) {
-				return false
-			}
-			return pure(sel.X)
-		}
-		return false
-	}
-	return pure(a) && pure(b)
+	ka, oka := bc.countKey(a, 0)
+	kb, okb := bc.countKey(b, 0)
+	return oka && okb && ka == kb
 }
 
-// getterOfOwnPackage: a method of the function's own package whose body is `return <chain of argument-less go/types
-// accessors on a field of the receiver>` (such as `func (r *T) Len() int { return r.sig.Results().Len() }`).
-func (bc *boundsCtx) getterOfOwnPackage(fn *types.Func) bool {
+// countKey: a canonical spelling of a count expression: single-definition locals replaced by their definition, one-line
+// getters of the package by what they return, the rest a chain of argument-less go/types accessors and field selections
+// on a variable that is assigned nowhere in the function. Equal keys denote the same number.
+func (bc *boundsCtx) countKey(e ast.Expr, depth int) (string, bool) {
+	if depth > 6 {
+		return "", false
+	}
+	switch x := ast.Unparen(e).(type) {
+	case *ast.Ident:
+		v := core.VarOf(bc.info, x)
+		if v == nil {
+			return "", false
+		}
+		defs := core.DefsOf(bc.info, bc.f.Root().Body, v)
+		if len(defs) == 0 {
+			return x.Name + "#" + itoa(int64(v.Pos())), true // parameter / receiver
+		}
+		if len(defs) == 1 && defs[0].Rhs != nil && defs[0].Index < 0 && (defs[0].Kind == "define" || defs[0].Kind == "var") && !isParamOf(bc.f.Root(), v) {
+			return bc.countKey(defs[0].Rhs, depth+1)
+		}
+		return "", false
+	case *ast.SelectorExpr:
+		k, ok := bc.countKey(x.X, depth+1)
+		return k + "." + x.Sel.Name, ok
+	case *ast.CallExpr:
+		if len(x.Args) != 0 {
+			return "", false
+		}
+		sel, ok := ast.Unparen(x.Fun).(*ast.SelectorExpr)
+		if !ok {
+			return "", false
+		}
+		fn := core.CalleeFunc(bc.info, x)
+		if fn == nil || fn.Pkg() == nil {
+			return "", false
+		}
+		rk, ok := bc.countKey(sel.X, depth+1)
+		if !ok {
+			return "", false
+		}
+		if fn.Pkg().Path() == "go/types" {
+			return rk + "." + fn.Name() + "()", true
+		}
+		if chain, isGetter := bc.getterChain(fn); isGetter {
+			return rk + chain, true
+		}
+	}
+	return "", false
+}
+
+// getterChain: for a method of the function's own package whose body is `return <recv>.<chain of argument-less
+// go/types accessors and field selections>` (such as `func (r *T) Len() int { return r.sig.Results().Len() }`), the
+// chain as text (".sig.Results().Len()").
+func (bc *boundsCtx) getterChain(fn *types.Func) (string, bool) {
 	if fn.Pkg() != bc.f.Pkg.Types {
-		return false
+		return "", false
 	}
 	for _, file := range bc.f.Pkg.Syntax {
 		for _, d := range file.Decls {
@@ -726,30 +743,36 @@ func (bc *boundsCtx) getterOfOwnPackage(fn *types.Func) bool {
 			}
 			ret, ok := fd.Body.List[0].(*ast.ReturnStmt)
 			if !ok || len(ret.Results) != 1 {
-				return false
+				return "", false
 			}
 			e := ast.Unparen(ret.Results[0])
+			chain := ""
 			for {
 				switch x := e.(type) {
 				case *ast.CallExpr:
 					callee := core.CalleeFunc(bc.info, x)
 					sel, isSel := ast.Unparen(x.Fun).(*ast.SelectorExpr)
 					if len(x.Args) != 0 || !isSel || callee == nil || callee.Pkg() == nil || callee.Pkg().Path() != "go/types" {
-						return false
+						return "", false
 					}
+					chain = "." + callee.Name() + "()" + chain
 					e = ast.Unparen(sel.X)
 					continue
 				case *ast.SelectorExpr:
+					chain = "." + x.Sel.Name + chain
 					e = ast.Unparen(x.X)
 					continue
 				case *ast.Ident:
-					return fd.Recv != nil && len(fd.Recv.List) == 1 && len(fd.Recv.List[0].Names) == 1 && bc.info.ObjectOf(x) == bc.info.ObjectOf(fd.Recv.List[0].Names[0])
+					if fd.Recv != nil && len(fd.Recv.List) == 1 && len(fd.Recv.List[0].Names) == 1 && bc.info.ObjectOf(x) == bc.info.ObjectOf(fd.Recv.List[0].Names[0]) {
+						return chain, true
+					}
+					return "", false
 				}
-				return false
+				return "", false
 			}
 		}
 	}
-	return false
+	return "", false
 }
 
 // encodeObligation: the destination of utf8.EncodeRune holds the encoding of the rune: it is known to have at least
